@@ -171,3 +171,66 @@ SUBS = [
     Sub("valid_range_carriers", valid_case, check_valid, quick=800, thorough=12000),
 ]
 REQUIRED_CLASSES = ["carriers:has_missing", "carriers:timed", "carriers:subsecond_times"] + [f"carriers:test={t}" for t in NAMES]
+
+
+# ---- the same mutable carrier object reused with new content ---------------------------------------------
+def _variant(case, name):
+    """A second logical case of the same test and length: values reversed, time steps doubled."""
+    import copy
+    b = copy.deepcopy(case)
+    t = REG()[name]
+    for k in t.obs + t.aux:
+        b[k] = b[k][::-1]
+    if "t" in b and b["t"]:
+        t0 = b["t"][0]
+        b["t"] = [t0 + 2 * (v - t0) + 3 for v in b["t"]]
+    if "D" in b:
+        b["D"] = b["D"] * 2
+        b["t0"] = b["t0"] + 3
+    return b
+
+
+@st.composite
+def reuse_case(draw, tier="quick"):
+    tc = draw(any_case(tier, [n for n in NAMES if n != "pressure"]))
+    tc["data_kind"] = draw(st.sampled_from(["list_none", "list_nan", "f64", "object"]))
+    tc["time_kind"] = draw(st.sampled_from(["epoch_list", "list_datetime", "list_timestamp", "dt64ns", "epoch_int"]))
+    return tc
+
+
+def check_reuse(tc, rec):
+    name, case = tc["test"], tc["case"]
+    t = REG()[name]
+    n = t.n(case)
+    rec.note(n >= 1 and (t.timed or has_missing(t, case)), [f"test={name}", f"time={tc['time_kind']}", f"data={tc['data_kind']}"])
+    C = Carrier(data=tc["data_kind"], time=tc["time_kind"])
+    other = _variant(case, name)
+    a_args, a_kw = t.build(case, C)
+    first = _call(rec, name, t, a_args, a_kw, {"step": "first"})
+    if first is SKIP:
+        return
+    b_args, b_kw = t.build(other, C)
+    # overwrite the *same* list / array objects with the second case's content
+    for x, y in zip(a_args, b_args):
+        try:
+            if isinstance(x, list) and isinstance(y, list) and len(x) == len(y):
+                x[:] = y
+            elif isinstance(x, np.ndarray) and isinstance(y, np.ndarray) and x.shape == y.shape and x.dtype == y.dtype:
+                x[...] = y
+            else:
+                return  # carrier not mutable in place (tuples, config objects): nothing to reuse
+        except Exception:
+            return
+    reused = flags(rec, name, _call(rec, name, t, a_args, b_kw, {"step": "reused objects"}), n, step="reused")
+    fresh_args, fresh_kw = t.build(other, CANON)
+    fresh = flags(rec, name, _call(rec, name, t, fresh_args, fresh_kw, {"step": "fresh"}), n, step="fresh")
+    if reused is SKIP or fresh is SKIP:
+        return
+    if reused != fresh:
+        i = next(i for i, (p, q) in enumerate(zip(fresh, reused)) if p != q)
+        rec.fail(name, f"a list/array object that was passed before and then refilled gives different flags than fresh canonical "
+                 f"arrays with the same content (index {i}: {fresh[i]} -> {reused[i]})", expected=fresh, got=reused, index=i,
+                 reused_object=True, carrier=C.describe(), test=name)
+
+
+SUBS.append(Sub("reused_mutable_carriers", reuse_case, check_reuse, quick=1500, thorough=20000))
